@@ -38,8 +38,20 @@ def build():
     p.models["fn.__call__"] = lambda interp, fv, args, kwargs: fv.attrs["fn"](interp, args, kwargs)
 
     # ---- sequences of one abstract collection in two arbitrary orders
+    # (`one_shot`: the items may come as a one-shot ITERATOR - pickle hands the dictitems of a __reduce__ / OrderedDict that way - which a
+    # first, failing, sorted() consumes: what is iterated afterwards is empty)
     def seq(run):
-        return lambda interp: Opaque("seq", "seq_" + run, ms="MS", ident=run)
+        def mk(interp):
+            one_shot = interp.ctx.ghost.setdefault("ONE_SHOT", bool(interp.ctx.choose(2, "items-are-a-one-shot-iterator")))
+            return Opaque("seq", "seq_" + run, ms="MS", ident=run, one_shot=one_shot, consumed=False)
+        return mk
+
+    def take(src):
+        """The multiset a traversal of `src` sees now; a one-shot iterator is empty afterwards."""
+        ms = "EMPTY" if src.attrs.get("consumed") else src.attrs["ms"]
+        if src.attrs.get("one_shot"):
+            src.attrs["consumed"] = True
+        return ms
 
     def m_sorted(interp, args, kwargs):
         ctx = interp.ctx
@@ -56,21 +68,29 @@ def build():
             if not calls:
                 raise Unsupported("sorted(genexp) without hash(): %s" % ast.unparse(node.elt))
             fn = interp.global_lookup("hash", src.env.module)
+            seen = take(base)
             if isinstance(fn, Closure):
                 # joblib's own md5-based hash: function of the abstract value -> digests are strings, totally ordered
-                return Opaque("sorted", None, ms=("joblib-hashed", base.attrs["ms"]))
+                return Opaque("sorted", None, ms=("joblib-hashed", seen))
             # the builtin hash(): str/bytes hashes depend on PYTHONHASHSEED -> run-specific order
-            return Opaque("sorted", None, ms=("builtin-hashed", base.attrs["ident"]))
+            return Opaque("sorted", None, ms=("builtin-hashed", base.attrs["ident"] if seen != "EMPTY" else "EMPTY"))
         if isinstance(src, Opaque) and src.tag == "seq":
+            seen = take(src)   # sorted() first builds the whole list (the iterator is consumed), then compares
             if cls == "total":
-                return Opaque("sorted", None, ms=("natural", src.attrs["ms"]))
+                return Opaque("sorted", None, ms=("natural", seen))
             if cls == "raises":
                 raise PyRaise(SExc(BUILTIN_EXC["TypeError"], ()))
             if cls == "raises-decimal":
                 raise PyRaise(SExc(p.exc_by_dotted("decimal.InvalidOperation"), ()))
-            return Opaque("sorted", None, ms=("some-permutation-of", src.attrs["ident"]))
+            return Opaque("sorted", None, ms=("some-permutation-of", src.attrs["ident"] if seen != "EMPTY" else "EMPTY"))
         raise Unsupported("sorted(%r)" % (src,))
 
+    def list_of_seq(interp, src):
+        # list(items): a re-iterable copy of what the traversal sees now
+        seen = take(src)
+        return Opaque("seq", src.name + "_list", ms=seen, ident=src.attrs["ident"] if seen != "EMPTY" else "EMPTY", one_shot=False, consumed=False)
+
+    p.models["list:seq"] = list_of_seq
     p.models["builtin:sorted"] = m_sorted
     p.models["builtin:iter"] = lambda i, a, k: a[0]
     p.assume_note("sorted(): canonical on strict total orders, TypeError when a comparison raises, input-order dependent on partial orders (sets / frozensets)")
@@ -95,6 +115,8 @@ def build():
     p.assume_note("pickle._Pickler (_batch_setitems, save, memoize, save_dict calling self._batch_setitems, dispatch by exact type): the emitted stream is a function of the token sequence handed over and is injective incl. type tags")
     glob = {"Pickler": PICKLER, "_ConsistentSet": ClassRef("_ConsistentSet")}
 
+    p.spec_funcs["carries_all"] = lambda interp, t: isinstance(t, Opaque) and t.tag == "sorted" and "EMPTY" not in (t.attrs["ms"] if isinstance(t.attrs["ms"], tuple) else (t.attrs["ms"],))
+
     def same_token(interp, a, b):
         return isinstance(a, Opaque) and isinstance(b, Opaque) and a.tag == b.tag == "sorted" and a.attrs["ms"] == b.attrs["ms"]
 
@@ -111,7 +133,9 @@ def build():
             inline={"_batch_setitems"},
             params=dict(h1=hasher(), h2=hasher(), items_a=seq("A"), items_b=seq("B")),
             ensures={"same_tokens_whatever_the_insertion_order_and_seed":
-                     "n_ev() == 2 and same_token(ev(0)[1], ev(1)[1])"},
+                     "n_ev() == 2 and same_token(ev(0)[1], ev(1)[1])",
+                     # discrimination: what reaches the pickler is made of ALL the items (two mappings with other contents must differ)
+                     "every_item_reaches_the_pickler": "n_ev() == 2 and carries_all(ev(0)[1]) and carries_all(ev(1)[1])"},
         ))
         p.add(Contract(
             LEMMA, "consistent_set_two_runs", variant="elements-" + order, props=["C08", "C06"], globals=glob, ghost=dict(ORDER=order),
@@ -248,6 +272,8 @@ def build():
     p.spec_funcs["fed"] = fed
     p.spec_funcs["saved"] = lambda interp: tuple(e[1] for e in interp.ctx.events if e[0] == "Hasher.save")
     p.spec_funcs["is_array"] = lambda interp, o: isinstance(o, Opaque) and o.tag == "nparray"
+    p.spec_funcs["mentions_pickle_of"] = lambda interp, v, o: (isinstance(v, Opaque) and v.tag == "pickled" and v.attrs.get("of") is o) or (isinstance(v, tuple) and any(
+        isinstance(x, Opaque) and x.tag == "pickled" and x.attrs.get("of") is o for x in v))
     p.spec_funcs["has_class"] = lambda interp, o, c: c in o.attrs.get("isinstance", ())
     p.spec_funcs["NP"] = lambda interp: NPMOD
     BYTES_ARRAY = "is_array(obj) and not obj.dtype.hasobject"
@@ -259,12 +285,17 @@ def build():
         calls={"Hasher.save": hasher_base_save, "pickle.dumps": lambda i, a, k: Opaque("pickled", None, of=a[0])},
         ensures={
             "all_the_element_bytes_reach_the_digest_once_through_a_contiguous_view": "implies(%s, whole_array_once(obj))" % BYTES_ARRAY,
-            "the_stand_in_carries_dtype_shape_and_strides": "implies(%s, len(saved()) == 1 and saved()[0][1][0] == 'HASHED' and saved()[0][1][1] is obj.dtype "
-                                                            "and saved()[0][1][2] is obj.shape and saved()[0][1][3] is obj.strides)" % BYTES_ARRAY,
+            # (the strides the code also puts there are NOT demanded: those of axes of length one are no part of the value - finding K51)
+            "the_stand_in_carries_dtype_and_shape": "implies(%s, len(saved()) == 1 and saved()[0][1][0] == 'HASHED' and saved()[0][1][1] is obj.dtype "
+                                                    "and saved()[0][1][2] is obj.shape)" % BYTES_ARRAY,
             "the_stand_in_carries_the_class": "implies(%s and not (self.coerce_mmap and has_class(obj, 'memmap')), saved()[0][0] is obj.__class__)" % BYTES_ARRAY,
             "a_memmap_counts_as_a_plain_array_on_request": "implies(%s and self.coerce_mmap and has_class(obj, 'memmap'), saved()[0][0] is NP().ndarray)" % BYTES_ARRAY,
             "object_arrays_and_other_values_are_pickled_whole": "implies(not (%s) and not has_class(obj, 'dtype'), len(saved()) == 1 and saved()[0] is obj and len(fed()) == 0)" % BYTES_ARRAY,
-            "dtype_objects_are_hashed_by_their_own_pickle": "implies(has_class(obj, 'dtype'), len(saved()) == 0 and len(fed()) == 2 and fed()[0] == b'_HASHED_DTYPE' and fed()[1].of is obj)",
+            # a dtype is a leaf like any other: whatever is done to avoid pickle's memo for it, something standing for it has to go into the
+            # STREAM at its position - bytes fed straight into the digest have no position, [dtype, 1] and [1, dtype] would hash alike (K50)
+            "a_dtype_leaf_keeps_its_position_in_the_stream": "implies(has_class(obj, 'dtype'), len(saved()) == 1)",
+            "a_dtype_is_hashed_by_its_own_pickle_not_through_the_memo": "implies(has_class(obj, 'dtype'), any(is_tag(x, 'pickled') and x.of is obj for x in fed()) or "
+                                                                        "(len(saved()) == 1 and mentions_pickle_of(saved()[0], obj)))",
         },
     ))
 
